@@ -36,7 +36,8 @@ FIELDS = ['pipeline_id', 'arrival_seconds', 'priority', 'operator_id', 'parents'
 
 def plan(tier):
     return [{"kind": "hypothesis", "examples": 2000 if tier == "quick" else 60000},
-            {"kind": "function", "func": "sampling", "shards": 2 if tier == "quick" else 8}]
+            {"kind": "function", "func": "sampling", "shards": 2 if tier == "quick" else 8},
+            {"kind": "function", "func": "jitter_across_processes", "shards": 3 if tier == "quick" else 12}]
 
 
 @st.composite
@@ -137,6 +138,13 @@ def run_case(spec):
         if len(out.problems) < 5:
             out.problem(key, msg)
 
+    if spec.get("xproc"):
+        prob = jitter_xproc_one(spec)
+        out.label("jitter_across_processes")
+        if prob:
+            P(*prob)
+        out.nontrivial = True
+        return out
     if "sampling" in spec:
         sp = spec["sampling"]
         prob = sampling_one(sp["params"], sp["n"], sp["start_seed"], "replay")
@@ -325,10 +333,59 @@ def sampling_one(params, n, start, tag):
         shutil.rmtree(d, ignore_errors=True)
 
 
+def jitter_xproc_one(spec):
+    """`tools jitter` with the same seed in two fresh interpreters under different hash seeds, and in this process:
+    the three output files must be identical"""
+    home = os.environ.get("VERIF_HOME", ".")
+    d = os.path.join(home, ".work", f"c20x-{os.getpid()}")
+    shutil.rmtree(d, ignore_errors=True)
+    os.makedirs(d)
+    try:
+        fin = os.path.join(d, "in.csv")
+        with open(fin, "w", newline="") as f:
+            f.write(make_csv(spec))
+        outs = []
+        for hs in spec["hash_seeds"]:
+            fo = os.path.join(d, f"out{hs}.csv")
+            env = dict(os.environ)
+            env["PYTHONHASHSEED"] = str(hs)
+            r = subprocess.run([sys.executable, "-m", "eudoxia", "tools", "jitter", fin, fo, repr(float(spec["delta"])), "-s", str(spec["seed"]), "-f"],
+                               env=env, capture_output=True, text=True, timeout=300)
+            if r.returncode != 0:
+                return ("C20:jitter-raised", f"exit {r.returncode}: {r.stderr[-300:]}")
+            outs.append(open(fo).read())
+        fo = os.path.join(d, "out_inproc.csv")
+        run_tool(["tools", "jitter", fin, fo, repr(float(spec["delta"])), "-s", str(spec["seed"]), "-f"])
+        outs.append(open(fo).read())
+        if len(set(outs)) != 1:
+            return ("C20:jitter-not-reproducible", f"seed {spec['seed']}, delta {spec['delta']}: runs under PYTHONHASHSEED {spec['hash_seeds']} and in-process give {len(set(outs))} different files")
+        return None
+    finally:
+        shutil.rmtree(d, ignore_errors=True)
+
+
+def jitter_across_processes(tier, seed, shard, nshards):
+    st_ = Stats()
+    viol = None
+    n = 6 + (seed + shard) % 5
+    arrivals = [repr(k * 0.37 + (shard % 3) * 0.11) for k in range(n)]
+    spec = {"xproc": True, "tps": 10, "arrivals": arrivals, "rows": [1 + (k + shard) % 3 for k in range(n)], "tool": "jitter",
+            "delta": [0.5, 2.0, 0.05][shard % 3], "seed": (seed * 13 + shard) % 1000, "hash_seeds": [shard % 7, 11 + shard]}
+    prob = jitter_xproc_one(spec)
+    st_.evaluations += 1
+    st_.labels["jitter_across_processes"] += 1
+    st_.nontrivial.add(spec_hash(spec))
+    if prob:
+        viol = {"spec": spec, "problem": {"key": prob[0], "msg": prob[1], "known": None}}
+    return {"shard": shard, "stats": st_.to_json(), "violation": viol, "harness": None}
+
+
 def sampling(tier, seed, shard, nshards):
     st_ = Stats()
     viol = None
     start = 1 + (seed * 31 + shard * 7) % 1000
+    if shard % 2 == 1:
+        start = 2 ** 32 - 2 + (seed + shard) % 2      # seeds beyond 32 bits are seeds too
     n = 3
     params = {"duration": 20, "ticks_per_second": 10, "waiting_seconds_mean": 1.5, "num_pipelines": 2, "num_operators": 3,
               "num_pools": 2, "cpus_per_pool": 16, "ram_gb_per_pool": 128, "scheduler_algo": ["priority", "naive"][shard % 2],
